@@ -6,7 +6,7 @@ import re
 from ..program import AnalysisError, walk_local, dotted
 from ..analysis import Spec, src, class_const, const_value, module_const
 from ..regexlang import Lang
-from ..rules import (returns_under, positional_args, canon, string_template, substitute_locals, GWF, EXC, mpt, need_func, stores_to, is_const,
+from ..rules import (kw, returns_under, positional_args, canon, string_template, substitute_locals, GWF, EXC, mpt, need_func, stores_to, is_const,
                      parent_map, raise_class, eval_atom, UNKNOWN)
 from . import common
 from .c07 import _explore
@@ -61,6 +61,43 @@ def validated_params_win(prog, an, rep):
            if isinstance(n, ast.Assign) and
            src(n.targets[0]) == 'self.kwargs' for v in [n.value]]
     rep.evaluated()
+    if len(sup) == 1 and not upd and \
+            [src(v) for v in kw_] == ['kwargs or {}']:
+        # the other spelling: the first map is built before the chain, as
+        # {**body, **URL parameters} -- the parameters come last
+        calls = [x for x in ast.walk(sup[0].ast) if isinstance(x, ast.Call)
+                 and src(x.func) == 'super().__init__']
+        m = kw(calls[0], 'settings') if calls else None
+        m = substitute_locals(f, m) if m is not None else None
+        last = None
+        if isinstance(m, ast.Dict) and m.keys and m.keys[-1] is None:
+            last = ' '.join(src(m.values[-1]).split())
+        elif isinstance(m, ast.Call) and src(m.func) == 'dict' and \
+                m.keywords and m.keywords[-1].arg is None and \
+                len(m.args) <= 1:
+            last = ' '.join(src(m.keywords[-1].value).split())
+        ok = last in ('self.kwargs', 'kwargs or {}', '(kwargs or {})')
+        if ok and 'kwargs' in {x.id for n in c.nodes.values()
+                               if n.kind == 'stmt' and
+                               isinstance(n.ast, ast.Assign)
+                               for t in n.ast.targets for x in ast.walk(t)
+                               if isinstance(x, ast.Name)}:
+            ok = False
+        rep.check(ok, R, f.qname + ': the first settings map is {**body, '
+                  '**URL parameters}', f.where(sup[0]),
+                  'the validated URL parameters do not come last in the map '
+                  'handed to the settings chain: a body key of the same '
+                  'name replaces them (%s)' % (src(m)[:80] if m is not None
+                                               else 'no settings= argument'))
+        later = [n for n in c.nodes.values() if n.kind == 'stmt' and
+                 n.id != sup[0].id and 'self.settings' in src(n.ast) and
+                 isinstance(n.ast, (ast.Assign, ast.Expr)) and
+                 c.path(sup[0].id, n.id, use_exc=False) is not None]
+        rep.check(not later, R, f.qname + ': nothing overwrites the '
+                  'settings after the URL parameters', f.where(),
+                  'settings are written again after the validated '
+                  'parameters: %s' % [src(n.ast)[:40] for n in later])
+        return
     ok = len(sup) == 1 and len(upd) == 1 and \
         [src(v) for v in kw_] == ['kwargs or {}']
     rep.check(ok, R, f.qname + ': self.settings.update(self.kwargs) with '
